@@ -357,6 +357,12 @@ fn main() {
             let name = args.get(2).map(|s| s.as_str()).unwrap_or("");
             dispatch!(name, exec_case_world, &args)
         }
+        "debug-bundles" => {
+            for (k, b) in &worlds::storagefaults::pools().bundles {
+                println!("{k}: entities={} schema={} requests={}", b.entities.len(), b.schema.is_some(), b.requests.len());
+            }
+            0
+        }
         "worlds" => {
             println!("hierarchy");
             println!("batched");
